@@ -48,5 +48,29 @@ Definition douter (a b : dense) : dense :=
   mkD (dshape a ++ dshape b)
       (fun idx => dget a (firstn (length (dshape a)) idx) * dget b (skipn (length (dshape a)) idx)).
 
+(* ---- operator algebra on dense arrays of shape M1..Md x N1..Nd ---- *)
+Definition dmatvec (d : nat) (A x : dense) : dense :=
+  mkD (firstn d (dshape A))
+      (fun ms => sum_idx (skipn d (dshape A)) (fun ns => dget A (ms ++ ns) * dget x ns)).
+Definition dvecmat (d : nat) (x A : dense) : dense :=
+  mkD (skipn d (dshape A))
+      (fun ns => sum_idx (firstn d (dshape A)) (fun ms => dget x ms * dget A (ms ++ ns))).
+Definition dmatmat (d : nat) (A B : dense) : dense :=
+  mkD (firstn d (dshape A) ++ skipn d (dshape B))
+      (fun idx => sum_idx (skipn d (dshape A))
+         (fun ks => dget A (firstn d idx ++ ks) * dget B (ks ++ skipn d idx))).
+(* A (M x N) applied along the last d axes of X (B x N): result B x M *)
+Definition dmatvec_batch (d : nat) (A X : dense) : dense :=
+  let nb := (length (dshape X) - d)%nat in
+  mkD (firstn nb (dshape X) ++ firstn d (dshape A))
+      (fun idx => sum_idx (skipn d (dshape A))
+         (fun ns => dget A (skipn nb idx ++ ns) * dget X (firstn nb idx ++ ns))).
+Definition dtranspose (d : nat) (A : dense) : dense :=
+  mkD (skipn d (dshape A) ++ firstn d (dshape A))
+      (fun idx => dget A (skipn (length (dshape A) - d) idx ++ firstn (length (dshape A) - d) idx)).
+Definition deye (ns : list nat) : dense :=
+  mkD (ns ++ ns) (fun idx => fold_right (fun ij acc => delta (fst ij) (snd ij) * acc) 1
+                               (combine (firstn (length ns) idx) (skipn (length ns) idx))).
+
 End Dense.
 Arguments dense R : clear implicits.
